@@ -181,7 +181,8 @@ func (sys *System) Conform(path []Move) string {
 		}
 		s = a.Next
 		ls := l.State()
-		if ls.KeyNoObs() != s.KeyNoObs() {
+		ls.Obs = s.Obs
+		if ls.Hash() != s.Hash() {
 			return fmt.Sprintf("step %d (%s): state after the step differs:\n injected: %s\n live:     %s", i, sys.Procs[m.P].Name, s.KeyNoObs(), ls.KeyNoObs())
 		}
 	}
